@@ -10,3 +10,12 @@ PROPS['C05'] = dict(
     assumptions=[],
     explanation="",
 )
+
+from contracts import headers
+PROPS['C02'] = dict(
+    units=list(headers.UNITS),
+    level='proof',
+    min_obligations=100,
+    assumptions=[],
+    explanation="",
+)
